@@ -36,7 +36,7 @@ def plan(tier, seed):
                     cases.append({"mode": "dfs", "cfg": cfg, "prefix": [0, c0, c1, c2], "depth": d + 1, "tier": tier})
     nwalk = 8000 if tier == "quick" else 150000
     for i in range(nwalk):
-        cases.append({"mode": "walk", "seed": seed, "idx": i, "cfg": {"n": 1 + i % 3, "async": i % 4 == 3, "foreign": i % 5 == 0, "hc": i % 3 == 1, "ext": i % 2 == 1, "sp": (i // 2) % 4 if i % 6 == 5 else 0, "veto": (seed * 100000 + i + 1) if i % 5 == 2 else 0}, "len": 10 + i % 5})
+        cases.append({"mode": "walk", "seed": seed, "idx": i, "cfg": {"n": 1 + i % 3, "async": i % 4 == 3, "foreign": i % 5 == 0, "hc": i % 3 == 1, "ext": i % 2 == 1, "sp": (i // 2) % 4 if i % 6 == 5 else 0, "veto": (seed * 100000 + i + 1) if i % 5 == 2 else 0, "restart2": i % 4 == 1}, "len": 10 + i % 5})
     # directed case for the listed finding C11-restart-replaced-bet
     cases.insert(0, {"mode": "events", "cfg": {"n": 1, "async": False}, "events": [["place", 0], ["resp", 0], ["fill", 0, 0.4], ["snap"], ["replace", 0], ["resp", 0], ["snap"], ["restart"]]})
     return cases
@@ -57,7 +57,7 @@ class Run:
         self.refs = {}  # i -> customer_order_ref
         self.objs = {}  # i -> order object placed in the first world
         self.placed = 0
-        self.budget = {"fill": 2, "lapse": 1, "req": 2, "snap": 3, "stale": 1, "restart": 1, "exch": 2, "void": 1, "sp": 1}
+        self.budget = {"fill": 2, "lapse": 1, "req": 2, "snap": 3, "stale": 1, "restart": 2 if cfg.get("restart2") else 1, "exch": 2, "void": 1, "sp": 1}  # restart2: the process is restarted twice (three instances in one process)
         self.saved = None
         self.log = []
         self.restarted = False
